@@ -190,12 +190,29 @@ def _fresh_expr(e, caller, site=None):
     if isinstance(e, ast.Call) and isinstance(e.func, ast.Name) and not e.args and not e.keywords \
             and _fresh_instance_class(e.func.id):
         return True       # an instance, made here, of a package class whose state is made per instance
+    if isinstance(e, ast.Call) and _returns_fresh(e):
+        return True       # a package function / method that hands back a container it has just made
     if isinstance(e, ast.Name):
         params = {a.arg for a in caller.args.args}
-        if e.id in params:
-            return False
         assigns = [a for a in ast.walk(caller) if isinstance(a, ast.Assign)
                    and any(isinstance(t, ast.Name) and t.id == e.id for t in a.targets)]
+        if e.id in params:
+            # the parameter's own value reaches the site unless a statement of the function body
+            # (not nested in a branch or loop) assigns the name before the statement of the site
+            if site is None:
+                return False
+            top = None
+            for i, st_ in enumerate(caller.body):
+                if any(x is site for x in ast.walk(st_)):
+                    top = i
+            killed = None
+            if top is not None:
+                for i, st_ in enumerate(caller.body[:top]):
+                    if st_ in assigns:
+                        killed = i
+            if killed is None:
+                return False
+            assigns = [a for a in assigns if a is caller.body[killed] or a.lineno > caller.body[killed].lineno]
         if site is not None:
             # definitions that can reach the call: those before it, and those anywhere in a loop
             # that contains it
@@ -214,6 +231,45 @@ def _fresh_expr(e, caller, site=None):
         vals = [a.value for a in assigns]
         return bool(vals) and all(_fresh_expr(v, caller) for v in vals if not isinstance(v, ast.Name))
     return False
+
+
+_FRESH_DEPTH = [0]
+
+
+def _returns_fresh(call):
+    """the callee is the one package function or method of that name, and every value it returns is
+    a container created in the callee (directly or by such a function again)"""
+    if _CTX is None or _FRESH_DEPTH[0] > 3:
+        return False
+    f = call.func
+    nm = f.id if isinstance(f, ast.Name) else (f.attr if isinstance(f, ast.Attribute) else None)
+    if nm is None:
+        return False
+    cands = []
+    for mn, m in _CTX.model.mods.items():
+        if mn.startswith("ctparse"):
+            cands.extend(fn for q, fn in m.funcs.items() if q == nm or q.endswith("." + nm))
+    if len(cands) != 1:
+        return False
+    g = cands[0]
+    own = []
+    stack = list(g.body)
+    while stack:
+        x = stack.pop()
+        if isinstance(x, (ast.FunctionDef, ast.AsyncFunctionDef, ast.Lambda, ast.ClassDef)):
+            continue
+        own.append(x)
+        stack.extend(ast.iter_child_nodes(x))
+    if any(isinstance(x, (ast.Yield, ast.YieldFrom)) for x in own):
+        return False
+    rets = [x for x in own if isinstance(x, ast.Return)]
+    if not rets or any(r.value is None for r in rets):
+        return False
+    _FRESH_DEPTH[0] += 1
+    try:
+        return all(_fresh_expr(r.value, g, r) for r in rets)
+    finally:
+        _FRESH_DEPTH[0] -= 1
 
 
 _CTX = None
@@ -526,15 +582,38 @@ def _int_hashed(ctx, cls_name):
             if at in ("mstart", "mend"):
                 continue
             return False
+        unknown = False
         for v in vals:
-            if not _is_int_expr(v, params):
+            r = _is_int_expr(v, params)
+            if r is False:
                 return False
+            if r is None:
+                unknown = True
+        if unknown:
+            return None       # an attribute whose kind is not visible here: the question stays open
+    return True
+
+
+def _all3(results):
+    results = list(results)
+    if any(r is False for r in results):
+        return False
+    if any(r is None for r in results):
+        return None
     return True
 
 
 def _is_int_expr(v, params):
+    """True: an int; False: certainly something else (a string, a float, a container);
+    None: not visible here"""
     if isinstance(v, ast.Constant):
-        return isinstance(v.value, int)
+        if isinstance(v.value, int):
+            return True
+        if v.value is None:
+            return None
+        return False
+    if isinstance(v, (ast.JoinedStr, ast.List, ast.Tuple, ast.Dict, ast.Set, ast.ListComp, ast.DictComp, ast.SetComp)):
+        return False
     if isinstance(v, ast.Name):
         defs = params.get("__locals__", {}).get(v.id)
         if defs:
@@ -543,22 +622,35 @@ def _is_int_expr(v, params):
                 return True
             seen.add(v.id)
             try:
-                return all(_is_int_expr(d, params) for d in defs)
+                return _all3(_is_int_expr(d, params) for d in defs)
             finally:
                 seen.discard(v.id)
         p = params.get(v.id)
-        return p is not None and hasattr(p, "annotation") and p.annotation is not None and norm(p.annotation) == "int"
+        if p is not None and hasattr(p, "annotation") and p.annotation is not None:
+            an = norm(p.annotation)
+            if an == "int":
+                return True
+            if an in ("str", "float", "bytes") or an.startswith(("List", "Dict", "Tuple", "Set")):
+                return False
+        return None
     if isinstance(v, ast.BinOp):
-        return _is_int_expr(v.left, params) and _is_int_expr(v.right, params)
+        return _all3([_is_int_expr(v.left, params), _is_int_expr(v.right, params)])
     if isinstance(v, ast.Subscript):
         # m.span(key)[0]
-        return isinstance(v.value, ast.Call) and isinstance(v.value.func, ast.Attribute) and \
-            v.value.func.attr in ("span", "regs")
+        if isinstance(v.value, ast.Call) and isinstance(v.value.func, ast.Attribute) and \
+                v.value.func.attr in ("span", "regs"):
+            return True
+        return None
     if isinstance(v, ast.Call) and isinstance(v.func, ast.Name) and v.func.id in ("len", "int"):
         return True
+    if isinstance(v, ast.Call) and isinstance(v.func, ast.Name) and v.func.id in ("str", "repr", "float", "format"):
+        return False
     if isinstance(v, ast.Call) and isinstance(v.func, ast.Attribute) and v.func.attr in ("start", "end"):
         return True
-    return False
+    if isinstance(v, ast.Call) and isinstance(v.func, ast.Attribute) and v.func.attr in (
+            "group", "strip", "lower", "upper", "format", "join", "replace", "lstrip", "rstrip", "captures"):
+        return False
+    return None
 
 
 def _positive(ctx, rep):
